@@ -95,7 +95,7 @@ struct Gen {
 		}
 		// names that are plain tokens and still special: the label the writers give an unnamed objective, and what the library generates for unnamed rows / columns
 		if (m > 0 && r.chance(1, 14)) { static const char *sp[] = {"obj", "obj", "OBJ", "c1", "r_1", "c2_0", "freerow", "endrow", "stay", "boundary", "minrow", "subjectx"}; L.rows[r.below(L.rows.size())].name = sp[r.below(12)]; }
-		if (n > 0 && r.chance(1, 12)) { static const char *sp[] = {"obj", "x1", "c1", "x_2", "freedom", "free_1", "Freeze", "infty", "infinite", "minor", "maxim", "stx", "endcol", "boundsx", "integers2", "generalx", "binaryx"}; std::string nm = sp[r.below(17)];   /* plain tokens: like the writers' defaults, or beginning like a keyword of the LP format */ bool used = false; for (auto &c : L.cols) if (c.name == nm) used = true; if (!used) L.cols[r.below(L.cols.size())].name = nm; }
+		if (n > 0 && r.chance(1, 12)) { static const char *sp[] = {"obj", "x1", "c1", "x_2", "freedom", "free_1", "Freeze", "infty", "infinite", "minor", "maxim", "stx", "endcol", "boundsx", "integers2", "generalx", "binaryx", "max", "min", "st", "end", "bounds", "integer", "general", "binary", "subject", "to", "problem", "Maximize", "END"}; std::string nm = sp[r.below(30)];   /* plain tokens: like the writers' defaults, or beginning like a keyword of the LP format */ bool used = false; for (auto &c : L.cols) if (c.name == nm) used = true; if (!used) L.cols[r.below(L.cols.size())].name = nm; }
 		// names that are no LP tokens: the LP writer has to repair them (and say the same name everywhere it uses it)
 		if (r.chance(1, 10)) { static const char *bad[] = {"x[1]", "2nd", "a-b", "q*r", "7up", "r<1>", "c=d", "k+1", "y[2,3]", "3"}; int k = r.range(1, 3);
 			for (int t = 0; t < k; t++) { std::string nm = bad[r.below(10)]; bool col = n > 0 && (m == 0 || r.chance(2, 3)); bool used = false; for (auto &c : L.cols) if (c.name == nm) used = true; for (auto &rr : L.rows) if (rr.name == nm) used = true; if (used) continue;
